@@ -21,7 +21,9 @@ def scope_params(tier):
 def run_bounded(pid, tier):
     params = scope_params(tier)
     gs = grammars(params["n_prods"], 2)
-    items = [(pid, g, params) for g in gs]
+    from vlib import corpus
+    extra = corpus.classic() + corpus.rule_orders()
+    items = [(pid, g, params) for g in gs] + [(pid, g, dict(params, max_len=min(params["max_len"], 4))) for g in extra]
     # lexical overlap between terminals: the same grammar shapes over overlapping recognisers
     ov = dict(params)
     ov["n_prods"] = 3 if tier == "quick" else 3
